@@ -75,6 +75,9 @@ def _metric(args):
         raise MachineryError(f"canonical MetricFrame run failed: {e!r}")
     A = [wrap(y, pres[0], labels[0], "yt"), wrap(p, pres[1], labels[1], "yp"), wrap(g, pres[2], labels[2], "sf"), wrap(w, pres[3], labels[3], "sw")]
     cf = wrap(c, pres[(2 + 1) % 4], labels[(2 + 1) % 4], "cf")
+    if pres[2][0] in ("list", "ndarray") and pres[0][0] == "ndarray":
+        A[2] = {"sf": A[2]}                       # features as a dict of arrays (accepted by MetricFrame and the fairness metrics)
+        cf = {"cf": list(c)} if not isinstance(cf, dict) and pres[3][0] == "list" else cf
     try:
         mf = fm.MetricFrame(metrics={"sel": fm.selection_rate, "tpr": fm.true_positive_rate}, y_true=A[0], y_pred=A[1], sensitive_features=A[2], control_features=cf,
                             sample_params={"sel": {"sample_weight": A[3]}, "tpr": {"sample_weight": A[3]}})
